@@ -10,6 +10,12 @@
    fresh (3k+1), fresh (3k+2) for its input, output and temporary directory; a directory fixed by the step
    (the binding / step arguments) is used verbatim and no name is drawn for it in the code — drawing one
    anyway in the model changes nothing observable because [fresh] is only assumed injective.
+   A fixed directory is [Some d] for a NON-EMPTY string d: the code is `directory or join(workdir, random_name())`,
+   so both None and "" draw a name and both are [None] here.
+   ASSUMPTION the code makes silently: _set_job_directories overwrites the three directories with resolve() evaluated
+   on the FIRST allocated location, and _schedule registers that string on ALL locations, i.e. the real path of a job
+   directory is taken to be the same on every allocated location.  The model (and the harness) has
+   realpath = directory on every location.
    The file system is the set of (location, directory) pairs that exist; [mkdir -p] adds the directory and its
    ancestors.  The registry is the C21 model.  Not modelled: symbolic-link work directories (realpath different
    from the directory, registered as SYMBOLIC_LINK plus the real path), remote shells. *)
